@@ -158,6 +158,11 @@ def run_case(case):
     d3.x = x - 512.0
     if not math.isclose(d3.required_impact, RI, rel_tol=1e-9):
         add('level-shift-dependence', '%s: level shift changes RI %r -> %r' % (tag, RI, d3.required_impact))
+    # a level that is huge compared with the day-to-day variation (values stay exactly representable: integers + 2^26)
+    d4 = TBRMMDiagnostics(y + 2.0 ** 26, par)
+    d4.x = x + 2.0 ** 24
+    if not math.isclose(d4.required_impact, RI, rel_tol=1e-7):
+        add('level-shift-dependence', '%s: a level shift of 2^26 changes RI %r -> %r' % (tag, RI, d4.required_impact))
     grid = [0.0, 0.3, 0.6, 0.9, 0.99, 0.995]
     vals = [d.estimate_required_impact(r) for r in grid]
     neg = [d.estimate_required_impact(-r) for r in grid]
